@@ -181,10 +181,13 @@ def history_cli(res, drv, n, known_ivs):
         for i in range(n):
             outd = os.path.join(d, f"o{i}")
             os.makedirs(outd)
+            # the options as build scripts pass them: once, not at all (default), or given again later on the line (the last one counts)
+            extra = [[], ["--hash-alg", "sha-512"], ["--hash-alg", "sha-256", "--hash-alg", "sha-512"], ["--hash-alg", "sha-512", "--hash-alg", "sha-256"],
+                     ["--key-id", "5", "--hash-alg", "shake128", "--hash-alg", "sha-384"]][i % 5]
             procs.append((i, outd, subprocess.Popen(
                 [common.PY, str(common.REPO / "suit_generator" / "cli.py"), "encrypt", "encrypt-and-generate", "--firmware", fw, "--key-name", "aes_key",
                  "--key-id", "0x7fffffe0", "--context", aes_keys_dir(), "--kms-script", str(common.REPO / "ncs" / "basic_kms.py"),
-                 "--encrypt-script", str(common.REPO / "ncs" / "encrypt_script.py"), "--output-dir", outd],
+                 "--encrypt-script", str(common.REPO / "ncs" / "encrypt_script.py"), "--output-dir", outd] + extra,
                 cwd=d, stdout=subprocess.DEVNULL, stderr=subprocess.DEVNULL, env={**os.environ, "PYTHONPATH": str(common.REPO)})))
             if len(procs) >= 16 or i == n - 1:
                 for (k, od, p) in procs:
@@ -199,6 +202,15 @@ def history_cli(res, drv, n, known_ivs):
                         res.spec_failures.append({"cli_invocation": k, "what": "encryption info unreadable"})
                         continue
                     iv = bytes.fromhex(v["ok"]["iv"])
+                    try:
+                        from cryptography.hazmat.primitives.ciphers.aead import AESGCM
+                        content = open(os.path.join(od, "encrypted_content.bin"), "rb").read()
+                        okdec = AESGCM(AES_KEY).decrypt(iv, content[16:] + content[:16], bytes.fromhex(v["ok"]["aad"])) == bytes(range(64))
+                    except Exception:  # noqa
+                        okdec = False
+                    if not okdec:
+                        res.spec_failures.append({"cli_invocation": k, "iv": iv.hex(), "what": "the content written by this invocation does not decrypt with the IV it published "
+                                                                                                "(the IV published is not the IV used)"})
                     if iv in ivs:
                         res.spec_failures.append({"cli_invocation": k, "iv": iv.hex(), "earlier": str(ivs[iv]), "what": "IV repeated across invocations with identical firmware"})
                     ivs[iv] = f"cli{k}"
